@@ -281,7 +281,7 @@ def run(tier, replay=None):
         import json
         print(json.dumps(json.load(open(replay)), indent=1)[:3000])
         return 0
-    proof = common.prove(report, "C04", ["protoconsts", "varconsts", "jis8", "pyhsmshdr"], extra_targets=["Run/C04Run.vo"])
+    proof = common.prove(report, "C04", ["protoconsts", "varconsts", "jis8", "pyhsmshdr", "rxloop"], extra_targets=["Run/C04Run.vo"])
     ok, log = common.coq_make(["Run/C04Run.vo"])
     if not ok:
         report.violation({"kind": "broken-obligation", "obligation": "model Run/C04Run.vo does not build against the regenerated constants",
